@@ -362,13 +362,15 @@ def form_cases(draw):
             "y": [draw(st.integers(-9, 9)) for _ in range(m)], "err": [draw(st.integers(1, 4)) for _ in range(m)],
             "kernel": draw(st.sampled_from([{"k": "SE"}, {"k": "RQ"}])), "mean": draw(st.sampled_from(["Constant", "Linear"])),
             "theta": [draw(st.floats(-1.2, 1.2)) for _ in range(8)],
-            "forms": {k: draw(st.sampled_from(["float64", "int64", "int32", "float32", "fortran", "strided"])) for k in ("x", "A", "y", "err")}}
+            "forms": {k: draw(st.sampled_from(["float64", "int64", "int32", "int16", "int8", "uint8", "uint16", "float32", "fortran", "strided"])) for k in ("x", "A", "y", "err")},
+            # the lattice spacing of the positions (optionally shifted to be non-negative) and the unit of the data and their errors
+            "x_step": draw(st.sampled_from([1, 1, 20, 1000, 20000])), "x_shift": draw(st.booleans()), "y_step": draw(st.sampled_from([1, 1, 10, 50]))}
 
 
 def body_forms(case, ctx):
     """whole-number data, errors, model matrix and positions are the same problem whether held as float64, integer, single-precision,
     Fortran-ordered or strided arrays"""
-    from props.c02_gp_posterior import as_form
+    from props.c02_gp_posterior import as_form, rescale_theta
 
     m, p, d = case["m"], case["p"], case["d"]
     X = np.array(case["x"], dtype=float).reshape(p, d)
@@ -376,6 +378,9 @@ def body_forms(case, ctx):
     spec = case["kernel"]
     n_theta = rk.mean_n_params(case["mean"], d) + rk.n_params(spec, p, d)
     theta = np.array(case["theta"][:n_theta], dtype=float)
+    step, shift, ystep = float(case.get("x_step", 1)), (7.0 if case.get("x_shift") else 0.0), float(case.get("y_step", 1))
+    X, y, err = (X + shift) * step, y * ystep, err * ystep
+    theta = rescale_theta(theta, None, spec, case["mean"], d, p, step, ystep)
     f = case["forms"]
 
     def build(fx, fa, fy, fe):
@@ -415,9 +420,10 @@ def body_forms(case, ctx):
         if not e <= 1:
             raise Violation("forms:" + "+".join(sorted({v for v in f.values() if v != "float64"})), f"A {A.shape}, {rk.describe(spec)}, {case['mean']}: {name} from [{what}] is {got.ravel()[:5].tolist()}, "
                             f"from float64 arrays of the same numbers {want.ravel()[:5].tolist()}")
-    ctx.nontrivial(any(v in ("int64", "int32") for v in f.values()))
+    ctx.nontrivial(any(v not in ("float64", "fortran", "strided") for v in f.values()))
     for k, v in f.items():
         ctx.event(f"{k}:{v}")
+    ctx.event(f"lattice spacing {int(step)}" + (", shifted" if shift else "") + f", data unit {int(ystep)}")
 
 
 SUBCHECKS = [
